@@ -13,10 +13,14 @@
     ask bulk findif | tilefail <maxd>             -> none | d=<least d ≤ maxd whose chunks do not tile [0,d)> chunks=…
     ask bulk findif | tilefails <maxd>            -> count=<number of d ≤ maxd that do not tile> first=<least such d|none>
     ask bulk findif | oobfail <maxd>              -> none | d=<least d ≤ maxd for which the all-false predicate is evaluated outside [0,d)> first=<offset>
+    ask bulk policy | chain <receiver: seq|unseq|par|par_unseq|join|default> <P_1> … <P_k>
+         the policy seen by the source of  src | bulk_transform(f_1,P_1) | … | bulk_transform(f_k,P_k) | receiver
+         -> seen=<policy> vectorised=<0|1>        (vectorised: bulk_schedule would take the #pragma ivdep loop)
 -/
 import UnifexModel.Driver.Entry
 import UnifexModel.Proto.Bulk
 import UnifexModel.Proto.FindIf
+import UnifexModel.Generated.BulkPolicy
 
 namespace Unifex.Driver.Entries
 open Unifex.Proto Unifex.Core
@@ -114,12 +118,26 @@ def findifQuery (q : String) : String :=
     | none => "bad-query"
   | _ => "bad-query"
 
+def policyQuery (q : String) : String :=
+  open Unifex.Proto.PolicyLattice Unifex.Generated.BulkPolicy in
+  match (q.splitOn " ").filter (· ≠ "") with
+  | "chain" :: recv :: ps =>
+    let r : Option Policy := if recv == "join" then some join_policy else if recv == "default" then some default_policy else Policy.parse recv
+    match r, ps.mapM Policy.parse with
+    | some r, some ps =>
+      -- ps is given from the source outwards; the transform nearest the receiver is the last one
+      let seen := ps.reverse.foldl tfx_policy r
+      s!"seen={seen.name} vectorised={if schedule_vectorised_stop seen then 1 else 0}"
+    | _, _ => "bad-query"
+  | _ => "bad-query"
+
 def entry (q : String → String) : Entry :=
   { admitH := fun _ => Verdict.reject 0 "" ["(pure model: use ask)"], states := fun _ => 0, query := q }
 
 end BulkQ
 
 def bulk : ModelEntries :=
-  ("bulk", [("loop", BulkQ.entry BulkQ.loopQuery), ("findif", BulkQ.entry BulkQ.findifQuery)])
+  ("bulk", [("loop", BulkQ.entry BulkQ.loopQuery), ("findif", BulkQ.entry BulkQ.findifQuery),
+            ("policy", BulkQ.entry BulkQ.policyQuery)])
 
 end Unifex.Driver.Entries
